@@ -7,6 +7,7 @@ import math
 import re
 from fractions import Fraction as F
 
+from gen.c05_ranges import gen_c05_ranges
 from lib import framework as fw, qconv, runner, snapshot
 
 META = {
@@ -56,6 +57,7 @@ META = {
                     ('src/geophires_x/WellBores.py', 'WellBores.Calculate')],
 }
 
+GENERATORS = (gen_c05_ranges,)
 TOL = F(1, 10 ** 9)
 OTOL = F(1, 10 ** 12)          # slack of the property checkers (one ulp of float rounding, not a modelling tolerance)
 CORPUS = fw.VERIF / 'corpus' / 'C05'
@@ -251,7 +253,7 @@ def part_history(ctx):
 
 QUICK_STEPS = [(1, 1), (1, 4), (2, 2), (3, 1), (3, 4), (5, 1), (5, 2), (5, 12), (7, 4), (10, 1), (10, 2), (10, 4), (20, 1), (20, 2),
                (30, 1), (30, 2)]
-DEEP_STEPS = QUICK_STEPS + [(30, 4), (30, 12), (40, 4), (100, 1), (100, 2)]
+DEEP_STEPS = QUICK_STEPS + [(30, 4), (30, 12), (40, 4), (100, 1)]
 
 
 def gen_input(rnd, resmodel, steps=QUICK_STEPS):
@@ -270,9 +272,9 @@ def gen_input(rnd, resmodel, steps=QUICK_STEPS):
     p.append(('Number of Segments', n))
     for i in range(1, n + 1):
         if rnd.random() < 0.93:
-            p.append((f'Gradient {i}', rnd.choice([dec(20, 90, 1)] * 6 + [0, 1, 0.5, dec(100, 300, 0)])))
+            p.append((f'Gradient {i}', rnd.choice([dec(20, 90, 1)] * 6 + [0, 1, 0.5, dec(100, 300, 0), dec(1.1, 12, 1)])))
         if i < n and rnd.random() < 0.93:
-            p.append((f'Thickness {i}', rnd.choice([dec(0.3, 2.5, 2)] * 6 + [100, dec(0.02, 0.09, 2)])))
+            p.append((f'Thickness {i}', rnd.choice([dec(0.3, 2.5, 2)] * 6 + [100, dec(0.02, 0.09, 2), dec(3, 99, 0)])))
     p.append(('Reservoir Depth', rnd.choice([dec(1, 6, 2)] * 4 + [dec(0.1, 1, 2), dec(6, 15, 1)])))
     p.append(('Maximum Temperature', rnd.choice([dec(250, 600, 0), dec(250, 600, 0), dec(60, 250, 0)])))
     p.append(('Surface Temperature', dec(0, 30, 1)))
@@ -332,7 +334,7 @@ QUICK_EXAMPLES = {'example_multiple_gradients.txt', 'example2.txt', 'example3.tx
 def all_inputs(ctx):
     from lib import configs
     rnd, inputs = ctx.rng, corpus_inputs()
-    for k in range(ctx.n(150, 1000)):
+    for k in range(ctx.n(150, 600)):
         m = (1 + (k // 15) % 2) if k % 15 == 0 else rnd.choice([4, 4, 4, 3, 3])
         inputs.append((f'gen{k}', gen_input(rnd, m, QUICK_STEPS if ctx.quick else DEEP_STEPS)))
     ex = [(n, t) for n, t in configs.example_texts(ctx) if not ctx.quick or n in QUICK_EXAMPLES]
